@@ -308,6 +308,7 @@ func (s *Server) Modify(ms spb.GRIBI_ModifyServer) error {
 	if err := s.newClient(cid); err != nil {
 		return err
 	}
+	verifTrace("open", cid, ms)
 
 	resultChan := make(chan *spb.ModifyResponse)
 	errCh := make(chan error)
@@ -372,6 +373,7 @@ func (s *Server) Modify(ms spb.GRIBI_ModifyServer) error {
 			gotmsg = true
 			// write the results to result channel.
 			if !skipWrite {
+				verifTrace("resp", cid)
 				resultChan <- res
 			}
 		}
@@ -444,6 +446,7 @@ func (s *Server) Flush(ctx context.Context, req *spb.FlushRequest) (*spb.FlushRe
 	if err := s.checkFlushRequest(req); err != nil {
 		return nil, err
 	}
+	verifGate("flush.checked", "")
 
 	nis := []string{}
 	switch t := req.GetNetworkInstance().(type) {
@@ -498,6 +501,7 @@ func (s *Server) newClient(id string) error {
 		// Set to the default set of parameters.
 		params: &clientParams{},
 	}
+	verifTrace("newClient", id)
 
 	return nil
 }
@@ -509,6 +513,7 @@ func (s *Server) deleteClient(id string) {
 	s.csMu.Lock()
 	defer s.csMu.Unlock()
 	delete(s.cs, id)
+	verifTrace("deleteClient", id)
 }
 
 // updateParams writes the parameters for the client specified by id to the server state
@@ -536,6 +541,7 @@ func (s *Server) updateParams(id string, params *spb.SessionParameters) error {
 	}
 	s.cs[id].setParams = true
 	s.cs[id].params = cparam
+	verifTrace("updateParams", id, *cparam)
 	return nil
 }
 
@@ -609,6 +615,7 @@ func (s *Server) checkParams(id string, p *spb.SessionParameters, gotMsg bool) (
 		})
 	}
 
+	verifGate("params.checked", id)
 	if err := s.setClientParams(id, cp); err != nil {
 		return nil, status.Errorf(codes.Internal, "internal error setting parameters, %v", err)
 	}
@@ -638,9 +645,11 @@ func (s *Server) checkClientsConsistent(id string, p *clientParams) (bool, error
 		}
 
 		if !state.params.Equal(p) {
+			verifTrace("paramsCheck", id, *p, false)
 			return false, nil
 		}
 	}
+	verifTrace("paramsCheck", id, *p, true)
 	return true, nil
 }
 
@@ -652,6 +661,7 @@ func (s *Server) setClientParams(id string, p *clientParams) error {
 		return fmt.Errorf("cannot find client %s, known clients: %v", id, s.cs)
 	}
 	s.cs[id].params = p
+	verifTrace("setClientParams", id, *p)
 	return nil
 }
 
@@ -703,6 +713,7 @@ func (s *Server) storeClientElectionID(id string, elecID *spb.Uint128) bool {
 		return false
 	}
 	cs.lastElecID = elecID
+	verifTrace("storeElec", id, elecID)
 	return true
 }
 
@@ -746,6 +757,7 @@ func (s *Server) runElection(id string, elecID *spb.Uint128) (*spb.ModifyRespons
 		return nil, status.Newf(codes.Internal, "cannot store election ID %s for client %s", elecID, id).Err()
 	}
 
+	verifGate("elec.stored", id)
 	s.elecMu.RLock()
 	defer s.elecMu.RUnlock()
 	nm, _, err := isNewMaster(elecID, s.curElecID)
@@ -757,6 +769,7 @@ func (s *Server) runElection(id string, elecID *spb.Uint128) (*spb.ModifyRespons
 		s.curElecID = elecID
 		s.curMaster = id
 	}
+	verifTrace("elecCAS", id, elecID, nm, s.curElecID, s.curMaster)
 
 	return &spb.ModifyResponse{
 		ElectionId: s.curElecID,
@@ -795,10 +808,14 @@ func (s *Server) doModify(cid string, ops []*spb.AFTOperation, resCh chan *spb.M
 	elec := s.getElection()
 	elec.clientLatest = cs.lastElecID
 	elec.client = cid
+	verifTrace("modSnapshot", cid, elec.master, elec.ID, elec.clientLatest)
+	verifGate("mod.snapshot", cid)
 
 	for _, o := range ops {
+		verifGate("mod.op", cid)
 		ni := o.GetNetworkInstance()
 		if ni == "" {
+			verifTrace("resp", cid)
 			resCh <- &spb.ModifyResponse{
 				Result: []*spb.AFTResult{{
 					Id:     o.Id,
@@ -814,6 +831,7 @@ func (s *Server) doModify(cid string, ops []*spb.AFTOperation, resCh chan *spb.M
 			// an error to the client since we do not want the connection
 			// to be torn down.
 			log.Errorf("rejected operation %s since it is an unknown network-instance, %s", o, ni)
+			verifTrace("resp", cid)
 			resCh <- &spb.ModifyResponse{
 				Result: []*spb.AFTResult{{
 					Id:     o.Id,
@@ -842,6 +860,7 @@ func (s *Server) doModify(cid string, ops []*spb.AFTOperation, resCh chan *spb.M
 		case err != nil:
 			errCh <- err
 		default:
+			verifTrace("resp", cid)
 			resCh <- res
 		}
 	}
